@@ -23,6 +23,18 @@ CHECKS = {
              'running interpreter; reference driver ref/tokenizer_ref.py and grammar '
              'ref/css_tokens.py (written from CSS 2.1 4.1 and the documented contract).',
         design='3 C05'),
+    'C01': dict(
+        text='Bounded symbolic model checking of the whole public pipeline (parse -> serialise -> parse of '
+             'the serialised bytes -> serialise) on the real code: for each of ~130 concrete parser '
+             'contexts (prefix, suffix) every Unicode infix up to the length bound is covered by path '
+             'classes chosen by the code; on every path no exception may escape, the result must be a '
+             'DOM object and the path must finish within its time budget; each path is also run '
+             'concretely with validation on. Nothing is claimed for texts whose distinguishing part is '
+             'longer than the bound beyond a listed context, nor for the polynomial-time clause.',
+        note='Trusted: z3; symbolic regex layer and pure-Python codec models (validated differentially); '
+             'reduced alphabet (all code points except non-ASCII cased letters, of which ~28 '
+             'representatives are kept) for the infix; logging stubbed; fetchers are in-memory stubs.',
+        design='3 C01'),
     'C09': dict(
         text='Inductive step from an arbitrary valid state: the rule list holds up to N rule objects '
              'whose kind codes are z3 variables constrained only by the invariant the property '
